@@ -10,6 +10,7 @@ import (
 	"fmt"
 	"hash/fnv"
 	"os"
+	"reflect"
 	"runtime"
 	"runtime/debug"
 	"sort"
@@ -111,6 +112,9 @@ type Exec struct {
 	timerSq int
 	sleep   []Op
 	group   map[int]int
+
+	finalizers map[interface{}]interface{}
+	nfinal     int
 }
 
 // Timer is a pending virtual timer. Virtual time advances only when no thread
@@ -610,6 +614,42 @@ func Choose(label string, n int) int {
 	}
 	return c
 }
+
+// ---- finalizers ----
+
+// SetFinalizer mirrors runtime.SetFinalizer for rewritten code: the finalizer is recorded, not handed to the
+// runtime. When the garbage collector would run it is not the scheduler's to know; the harness says when the
+// object has become unreachable (Drop), and from then on the finalizer may run at any time: it becomes a scheduler
+// thread of its own, interleaved like any other.
+func SetFinalizer(obj interface{}, finalizer interface{}) {
+	e := must()
+	if e.finalizers == nil {
+		e.finalizers = map[interface{}]interface{}{}
+	}
+	if finalizer == nil {
+		delete(e.finalizers, obj)
+		return
+	}
+	e.finalizers[obj] = finalizer
+}
+
+// Drop declares obj unreachable for the program under test; it reports whether a finalizer was started.
+func Drop(obj interface{}) bool {
+	e := must()
+	f, ok := e.finalizers[obj]
+	if !ok {
+		return false
+	}
+	delete(e.finalizers, obj)
+	e.nfinal++
+	GoNamed(fmt.Sprintf("finalizer/%d", e.nfinal), func() {
+		reflect.ValueOf(f).Call([]reflect.Value{reflect.ValueOf(obj)})
+	})
+	return true
+}
+
+// Gosched mirrors runtime.Gosched.
+func Gosched() { Yield() }
 
 // InSleepMode reports whether the running execution uses sleep sets (unbounded exploration).
 func InSleepMode() bool { return must().opts.SleepMode }
